@@ -1,7 +1,7 @@
 (* Executable models of the graph queries of C12 (circuit.py: fanin .. kcuts, props.levelize).
    Thin networkx wrappers (ancestors, descendants, is_directed_acyclic_graph) are modelled by the simplest executable
    definition and related to paths in Proofs/QueriesProofs.v; depth, levelize, reconvergent_fanout_nodes and kcuts
-   follow the structure of the Python code. *)
+   follow the structure of the Python code.  fanin(ns) / fanout(ns) of a node list are fanin_l / fanout_l of Paths.v. *)
 From stdpp Require Import strings gmap sets.
 From CG Require Export Types Model.Paths.
 Open Scope string_scope.
@@ -16,3 +16,84 @@ Fixpoint close (fuel : nat) (c : circuit) (S : gset string) : gset string :=
   end.
 Definition tfi (c : circuit) (ns : list string) : gset string := close (size c) c (fanin_l c ns).
 Definition tfo (c : circuit) (ns : list string) : gset string := tfi (rev_g c) ns.
+
+(* `l` enumerates the set `s` without repetition (recorded iteration order of a Python set) *)
+Definition enum_ok (l : list string) (s : gset string) : bool := bool_decide (NoDup l ∧ list_to_set l = s).
+
+(* ---- startpoints(ns) / endpoints(ns); `if ns:` -- an empty argument means the whole circuit ---- *)
+Definition startpoints_of (c : circuit) (ns : list string) : gset string :=
+  match ns with [] => startpoints c | _ => (list_to_set ns ∪ tfi c ns) ∩ startpoints c end.
+Definition endpoints_of (c : circuit) (ns : list string) : gset string :=
+  match ns with [] => endpoints c | _ => (list_to_set ns ∪ tfo c ns) ∩ endpoints c end.
+
+(* ---- longest-path table by relaxation: after k rounds, entry n = longest path into n with at most k edges ---- *)
+Definition lvl (r : gmap string nat) (n : string) : nat := default 0 (r !! n).
+Definition max_over (g : string → nat) (X : gset string) : nat := foldr (λ f acc, max acc (g f)) 0 (elements X).
+Definition relax (c : circuit) (r : gmap string nat) : gmap string nat :=
+  (λ i, max_over (λ f, S (lvl r f)) (n_fi i)) <$> c.
+Definition depth_table (c : circuit) : gmap string nat := Nat.iter (size c) (relax c) ∅.
+(* is_cyclic: the table is a strict ranking of all edges exactly when the graph has no cycle *)
+Definition check_table (c : circuit) (r : gmap string nat) : bool :=
+  bool_decide (map_Forall (λ n i, set_Forall (λ f, lvl r f < lvl r n) (n_fi i)) c).
+Definition is_cyclic (c : circuit) : bool := negb (check_table c (depth_table c)).
+
+(* fanin_depth(ns) / fanout_depth(ns), maximum=True: ValueError on a cyclic circuit (and on an empty node list: max of nothing) *)
+Definition fanin_depth (c : circuit) (ns : list string) : res nat :=
+  if is_cyclic c then Raise ValueError else
+  match ns with [] => Raise ValueError | _ => let t := depth_table c in Ok (foldr (λ n acc, max acc (lvl t n)) 0 ns) end.
+Definition fanout_depth (c : circuit) (ns : list string) : res nat := fanin_depth (rev_g c) ns.
+
+(* ---- topological order checker (the answer of networkx topological_sort is validated, not modelled) ---- *)
+Fixpoint topo_go (c : circuit) (seen : gset string) (l : list string) : bool :=
+  match l with
+  | [] => true
+  | n :: r => bool_decide (fanin c n ⊆ seen) && topo_go c ({[n]} ∪ seen) r
+  end.
+Definition is_topo_order (c : circuit) (l : list string) : bool := enum_ok l (dom c) && topo_go c ∅ l.
+
+(* ---- props.levelize:
+       levels = {n: 0 for n in c.inputs() | c.filter_type(("0", "1", "x"))}
+       for n in c.topo_sort(): if n in levels: continue
+                               levels[n] = max((levels[fi] for fi in c.fanin(n)), default=-1) + 1
+     `order` is the recorded result of topo_sort (checked, BadOrder otherwise) ---- *)
+Definition lev0 (t : gtype) : bool := match t with Input | C0 | C1 | CX => true | _ => false end.
+Fixpoint levelize_go (c : circuit) (order : list string) (lv : gmap string nat) : gmap string nat :=
+  match order with
+  | [] => lv
+  | n :: rest =>
+    match lv !! n with
+    | Some _ => levelize_go c rest lv
+    | None => levelize_go c rest (<[n := max_over (λ f, S (lvl lv f)) (fanin c n)]> lv)
+    end
+  end.
+Definition levelize (c : circuit) (order : list string) : res (gmap string nat) :=
+  if is_cyclic c then Raise ValueError else
+  if negb (is_topo_order c order) then BadOrder else
+  Ok (levelize_go c order ((λ _, 0) <$> filter (λ p, lev0 (n_ty p.2) = true) c)).
+
+(* ---- reconvergent_fanout_nodes: some pair of distinct fan-out branches a, b with
+       (transitive_fanout(a) | {a}) & (transitive_fanout(b) | {b}) non-empty; r is the reversed graph ---- *)
+Definition cone (r : circuit) (a : string) : gset string := {[a]} ∪ tfi r [a].
+Definition reconv_at (c r : circuit) (g : string) : bool :=
+  let cs := (λ a, (a, cone r a)) <$> elements (fanout c g) in
+  existsb (λ p, existsb (λ q, negb (bool_decide (p.1 = q.1)) && negb (bool_decide (p.2 ∩ q.2 = ∅))) cs) cs.
+Definition reconvergent (c : circuit) : gset string :=
+  let r := rev_g c in filter (λ g, reconv_at c r g = true) (dom c).
+
+(* ---- kcuts(n, k): cuts(n) = [x for x in reduce(merge, [cuts(f) for f in fanin(n)]) if len(x) <= k] + [{n}], merge keeps unions of size <= k;
+     a node without fan-in has the single cut {n}.  The memoised recursion is computed as a table, one round per level;
+     ord m is the recorded iteration order of fanin(m), so the returned list is reproduced with its order. ---- *)
+Definition cutlist := list (gset string).
+Definition merge (k : nat) (A B : cutlist) : cutlist :=
+  filter (λ s, size s ≤ k) (a ← A; b ← B; [a ∪ b]).
+Definition reduce_merge (k : nat) (ls : list cutlist) : cutlist :=
+  match ls with [] => [] | x :: r => foldl (merge k) x r end.
+Definition kc_step (c : circuit) (k : nat) (ord : string → list string) (T : gmap string cutlist) : gmap string cutlist :=
+  map_imap (λ n i, Some (if decide (n_fi i = ∅) then [{[n]}]
+                         else filter (λ s, size s ≤ k) (reduce_merge k ((λ f, default [] (T !! f)) <$> ord n)) ++ [{[n]}])) c.
+Definition kcuts (c : circuit) (n : string) (k : nat) (ord : string → list string) : res cutlist :=
+  if negb (forallb (λ m, enum_ok (ord m) (fanin c m)) (elements (dom c))) then BadOrder else
+  Ok (default [] (Nat.iter (S (lvl (depth_table c) n)) (kc_step c k ord) ∅ !! n)).
+
+Definition qord_of (l : list (string * list string)) : string → list string :=
+  let m : gmap string (list string) := list_to_map l in λ n, default [] (m !! n).
